@@ -481,3 +481,97 @@ func (m *Model) JunkTypes() (noncrit, crit []uint64) {
 	}
 	return
 }
+
+// ---------------------------------------------------------------- minimal well-formed values
+
+func (k *Kind) requiredKind() bool {
+	switch k.Tag {
+	case "natural", "fixedUint", "time", "string":
+		return !k.Opt
+	}
+	return false
+}
+
+// minKind is the smallest value of a field: present (empty bytes / empty name / 0 / empty struct /
+// one-element sequence) or absent (nil, or the zero value for a required field).
+func (m *Model) minKind(k *Kind, present bool, depth int) *V {
+	if !present && !k.requiredKind() {
+		switch k.Tag {
+		case "seq":
+			return &V{K: VSeq}
+		case "map":
+			return &V{K: VMap}
+		}
+		return Absent()
+	}
+	switch k.Tag {
+	case "natural", "fixedUint", "time":
+		return &V{K: VNat, N: 0}
+	case "bool":
+		return &V{K: VTrue}
+	case "binary", "wire", "string":
+		return &V{K: VBytes, B: []byte{}}
+	case "name", "interestName":
+		return &V{K: VName, Name: enc.Name{}}
+	case "struct":
+		return m.Inner(k).minStruct(depth < 2, depth+1)
+	case "seq":
+		return &V{K: VSeq, Elems: []*V{m.minKind(k.Sub, true, depth+1)}}
+	case "map":
+		return &V{K: VMap, Keys: []*V{m.minKind(k.Key, true, depth+1)}, Elems: []*V{m.minKind(k.Val, true, depth+1)}}
+	}
+	return Absent()
+}
+
+func (m *Model) minStruct(present bool, depth int) *V {
+	v := &V{K: VStruct}
+	for i := range m.Fields {
+		v.Elems = append(v.Elems, m.minKind(&m.Fields[i].K, present, depth))
+	}
+	return v
+}
+
+func (v *V) with(i int, e *V) *V {
+	c := &V{K: v.K, Elems: append([]*V{}, v.Elems...)}
+	c.Elems[i] = e
+	return c
+}
+
+// MinimalValues is the systematic family of degenerate-but-well-formed values of a model: nothing
+// set, everything set to its smallest value, each field alone, each field missing, degenerate names,
+// and (one level deep) every such variant of every nested model.
+func (m *Model) MinimalValues(depth int) []*V {
+	none, all := m.minStruct(false, depth), m.minStruct(true, depth)
+	out := []*V{none, all}
+	digest := enc.Component{Typ: 2, Val: make([]byte, 32)}
+	a := enc.Component{Typ: 8, Val: []byte("a")}
+	for i := range m.Fields {
+		k := &m.Fields[i].K
+		if k.Tag == "marker" || k.Tag == "signature" {
+			continue
+		}
+		out = append(out, none.with(i, m.minKind(k, true, depth)), all.with(i, m.minKind(k, false, depth)))
+		switch k.Tag {
+		case "name", "interestName":
+			for _, n := range []enc.Name{{{Typ: 8, Val: []byte{}}}, {a}, {a, digest}, {digest, a}, {digest}} {
+				if k.Tag == "interestName" && n[len(n)-1].Typ == 2 {
+					// the plain Encode() strips a trailing digest component; keep the value valid for C13
+					continue
+				}
+				out = append(out, all.with(i, &V{K: VName, Name: n}), none.with(i, &V{K: VName, Name: n}))
+			}
+		case "struct":
+			if depth == 0 {
+				for _, w := range m.Inner(k).MinimalValues(depth + 1) {
+					out = append(out, none.with(i, w))
+				}
+			}
+		case "seq":
+			out = append(out, none.with(i, &V{K: VSeq, Elems: []*V{m.minKind(k.Sub, true, depth+1), m.minKind(k.Sub, true, depth+1)}}))
+		}
+	}
+	if len(out) > 160 {
+		out = out[:160]
+	}
+	return out
+}
